@@ -96,6 +96,8 @@ REQUIRE = {
     "batches_sibling_comm_shared_dx_or_N": 100,
     "batches_first_comm_after_sibling": 100,
     "batches_N_equals_dim": 20,
+    "batches_more_than_1024_markers_2d": 20,
+    "batches_more_than_1024_markers_3d": 20,
 }
 
 EPS64 = c06.EPS64
@@ -193,7 +195,10 @@ def run_shard(sh, rec):
     rng = util.rng_for(seed, ID, sh["name"])
     # pool entries, then the sibling communicator (c06.SIBLINGS: shares N with one earlier object and, where C06's pool
     # entry is also in this pool, dx with another; positional constructor arguments + defaults), then the FIRST one again
-    entries = [(e, "pool") for e in POOL[d][sh["variant"]]] + [(c06.SIBLINGS[d][sh["variant"]], "sibling"), (POOL[d][sh["variant"]][0], "first-again")]
+    entries = [(e, "pool") for e in POOL[d][sh["variant"]]]
+    if sh["variant"] == "B":
+        entries.append((c06.BIG_N[d], "bigN"))  # > 1024 markers: dense W on a small grid
+    entries += [(c06.SIBLINGS[d][sh["variant"]], "sibling"), (POOL[d][sh["variant"]][0], "first-again")]
     first = None
     for (x_range, nx, N), role in entries:
         dom0 = c06.make_domain(d, (8,) * (d - 1) + (nx,), x_range, real_t)
@@ -217,7 +222,9 @@ def run_shard(sh, rec):
             nb = 30 if N >= 128 else 50
         else:
             nb = 150 if N >= 128 else 300
-        if role != "pool":
+        if role == "bigN":
+            nb = 6 if tier == "quick" else 20
+        elif role != "pool":
             nb = max(10, nb // 4)
         off = int(rng.integers(len(MARKER_SETS)))
         for b in range(nb):
@@ -229,7 +236,9 @@ def run_shard(sh, rec):
                 rec.count("batches_grid_y_exceeds_x")
             if d == 3 and shape[0] > shape[-1]:
                 rec.count("batches_grid_z_exceeds_x")
-            rec.count({"pool": "batches_pool_comm", "sibling": "batches_sibling_comm_shared_dx_or_N", "first-again": "batches_first_comm_after_sibling"}[role])
+            rec.count({"pool": "batches_pool_comm", "bigN": "batches_pool_comm", "sibling": "batches_sibling_comm_shared_dx_or_N", "first-again": "batches_first_comm_after_sibling"}[role])
+            if N > 1024:
+                rec.count(f"batches_more_than_1024_markers_{d}d")
             if N == d:
                 rec.count("batches_N_equals_dim")
             dom = c06.make_domain(d, shape, x_range, real_t)
